@@ -38,9 +38,9 @@ def run(chk):
         tests = [e for e in ev.events if e.kind == "test"]
         chk.need(len(tests) == 1, f"{q}: expected one determinant test")
         c = tests[0].value.as_atom()
-        okc = bool(c and c[0] == "lt" and c[2] == P.const(0) and (c[1] == det(v) * det(w) or c[1].key() in
-                                                                   (det(matmul(v, w)).key(), "numpy.linalg.det($cov)")))
-        chk.ob("R18.1", NUM, q, "the branch condition is det(v)*det(w) < 0 (the improper case)", okc, found=str(tests[0].value))
+        okc = bool(c and c[0] == "lt" and c[2] == P.const(0) and (c[1] == det(v) * det(w) or c[1].key() == det(matmul(v, w)).key()))
+        chk.ob("R18.1", NUM, q, "the branch condition is det(v)*det(w) < 0 (the improper case; det(cov) is NOT equivalent: it vanishes "
+               "for planar / collinear sets)", okc, fingerprint="condition", found=str(tests[0].value))
         flips = []
         for e in ev.events:
             if e.kind in ("store", "aug") and e.guards and e.guards[-1][0].key() == tests[0].value.key():
@@ -106,9 +106,17 @@ def run(chk):
         chk.ob("R18.3", DM, "Dimer.calculate_transform", "both point sets are centred on their own centroids before alignment",
                defs.get("pos_a") is not None and defs["pos_a"].key() == "-$v_a + self.a.positions" and defs["pos_b"].key() == "-$v_b + self.b.positions"
                and defs["v_a"].key() == "self.a.centroid" and defs["v_b"].key() == "self.b.centroid", found=str({k: str(v) for k, v in defs.items()}))
-        chk.ob("R18.3", DM, "Dimer.calculate_transform", "the rotation comes from kabsch_rotation_matrix on the centred sets",
-               defs.get("R") is not None and defs["R"].key() in ("chmpy.util.num.kabsch_rotation_matrix($pos_b, $pos_a)", "chmpy.util.num.kabsch_rotation_matrix($pos_a, $pos_b)"),
-               found=str(defs.get("R")))
+        # convention: transform_ab = (R, v_b - v_a) with pos_b . R ~ pos_a, i.e. R = kabsch(pos_b, pos_a) (or the transpose of kabsch(pos_a, pos_b))
+        chk.ob("R18.3", DM, "Dimer.calculate_transform", "the stored rotation maps the centred second molecule onto the centred first one "
+               "(kabsch(pos_b, pos_a), or the transpose of kabsch(pos_a, pos_b))",
+               defs.get("R") is not None and defs["R"].key() in ("chmpy.util.num.kabsch_rotation_matrix($pos_b, $pos_a)",
+                                                                  "(T chmpy.util.num.kabsch_rotation_matrix($pos_a, $pos_b))"),
+               fingerprint="dimer-rotation", found=str(defs.get("R")))
+        st = {e.target.key(): e.value.key() for e in dv.events if e.kind == "store"}
+        chk.ob("R18.3", DM, "Dimer.calculate_transform", "transform_ab = (R, centroid_b - centroid_a)",
+               "(tuple ($R -$v_a + $v_b))" in st.get("self.transform_ab", "") or st.get("self.transform_ab") == "(tuple ($R $v_ab))" or
+               any(e.kind == "store" and e.target.key() == "self.transform_ab" and "$R" in e.value.key() and "$v_b" in e.value.key() for e in dv.events),
+               found=st.get("self.transform_ab"))
         guard = [e for e in dv.events if e.kind == "test" and "len(self.a)" in e.value.key()]
         chk.ob("R18.3", DM, "Dimer.calculate_transform", "sets of different size are rejected before alignment", bool(guard))
     chk.assume("optimality as a numerical statement (SVD) and planar / collinear degeneracy are not decided")
